@@ -215,8 +215,8 @@ def run(ctx):
             hc["md"] = c02.gen_md(r)
         if r.random() < 0.5:
             hc["hist"] = [["add_order_link", r.randrange(40), r.randrange(40)] for _ in range(8)]
-        if r.random() < 0.3:
-            hc["plant"] = c02.gen_plant(r, 3)
+        if r.random() < 0.6:
+            hc["plant"] = c02.gen_plant(r, 4)
         case = {"hugr": hc, "rseed": f"{ctx.seed}/{i}"}
         nt = ctx.guard("foreign", case, check_case, ctx, case)
         ctx.case("foreign", case, bool(nt))
